@@ -334,8 +334,7 @@ def pg_base_schema():
     """std stand-in + std::sequence (looked up by the backend for every new property)."""
     global _PG_BASE
     if _PG_BASE is None:
-        s = K.base_schema()
-        _PG_BASE = K._create_scalar(s, 'std::sequence')
+        _PG_BASE = K.base_schema()
     return _PG_BASE
 
 
@@ -351,7 +350,21 @@ def _extra_menu():
         m.append((f'create multi property {t}.tags -> str', lambda s, t=t: K.create_property(s, t, 'tags', multi=True)))
         m.append((f'drop property {t}.tags', lambda s, t=t: K.drop_pointer(s, t, 'tags')))
         m.append((f'drop link {t}.m', lambda s, t=t: K.drop_pointer(s, t, 'm', link=True)))
+        for lp in ('a', 'b'):
+            m.append((f'create link property {t}.l@{lp} -> str', lambda s, t=t, lp=lp: K.ddl(s, _link_prop(t, 'l', lp, True))))
+            m.append((f'drop link property {t}.l@{lp}', lambda s, t=t, lp=lp: K.ddl(s, _link_prop(t, 'l', lp, False))))
+        m.append((f'create link property {t}.m@a -> str', lambda s, t=t: K.ddl(s, _link_prop(t, 'm', 'a', True))))
     return m
+
+
+def _link_prop(typ, lname, pname, create):
+    from edb.edgeql import ast as qlast
+    ref = qlast.ObjectRef(name=pname, itemclass=K.OC.PROPERTY)
+    if create:
+        cmd = qlast.CreateConcreteProperty(name=ref, target=K._tn('std::str'), is_required=False, cardinality=None, commands=[])
+    else:
+        cmd = qlast.DropConcreteProperty(name=ref)
+    return K._alter_ptr(typ, lname, True, cmd)
 
 
 def _alter_ptr_card(typ, pname, link, multi):
@@ -370,6 +383,8 @@ _LABEL = {label: i for i, (label, _f) in enumerate(MENU)}
 RECIPES = dict(C04.RECIPES)
 RECIPES[6] = ['create default::T0', 'create multi property default::T0.tags -> str',
               'create default::T1 extending default::T0', 'create link default::T1.l -> default::T0']
+RECIPES[8] = ['create default::T0', 'create default::T1', 'create link default::T0.l -> default::T1',
+              'create link property default::T0.l@a -> str', 'create default::T2 extending default::T0']
 RECIPES[7] = ['create abstract default::T0', 'create property default::T0.p -> str',
               'create default::T1 extending default::T0', 'create default::T2 extending default::T0',
               'create multi link default::T1.m -> default::T1']
@@ -380,11 +395,16 @@ _RECIPE_CACHE = {}
 def recipe_state(r):
     """(schema, catalog) after building recipe r through the backend route."""
     if r not in _RECIPE_CACHE:
-        with _PgRoute() as route:
-            s = pg_base_schema()
-            for label in RECIPES[r]:
-                s = MENU[_LABEL[label]][1](s)
-            _RECIPE_CACHE[r] = (s, route.cat)
+        st = K.id_state()
+        K.reset_ids(0, start=r * 10000)
+        try:
+            with _PgRoute() as route:
+                s = pg_base_schema()
+                for label in RECIPES[r]:
+                    s = MENU[_LABEL[label]][1](s)
+                _RECIPE_CACHE[r] = (s, route.cat)
+        finally:
+            K.restore_ids(st)
     s, cat = _RECIPE_CACHE[r]
     return s, cat.copy()
 
@@ -403,11 +423,12 @@ def history(recipe: int, k: int, c0: int, c1: int, c2: int, c3: int) -> bool:
         cs.append(concrete_index(c, NMENU))
     if recipe < 0 or k < 0 or any(c < 0 for c in cs):
         return True
-    with untraced():
+    with untraced(heavy=True):
         return _history(recipe, cs)
 
 
 def _history(recipe, cs) -> bool:
+    K.reset_ids(0)
     s, cat = recipe_state(recipe)
     log = list(RECIPES[recipe])
     probs = layout_problems(s, cat)
@@ -480,7 +501,7 @@ def history_after_accepted(recipe: int, k: int, i0: int, c1: int, c2: int) -> bo
     k = concrete_index(k, 4)
     if recipe < 0 or k < 1:
         return True
-    with untraced():
+    with untraced(heavy=True):
         acc = accepted_first(recipe)
     i0 = concrete_index(i0, len(acc))
     if i0 < 0:
@@ -492,7 +513,7 @@ def history_after_accepted(recipe: int, k: int, i0: int, c1: int, c2: int) -> bo
         cs.append(concrete_index(c, NMENU))
     if any(c < 0 for c in cs):
         return True
-    with untraced():
+    with untraced(heavy=True):
         return _history(recipe, cs)
 
 
@@ -511,7 +532,7 @@ def twin_witness(c0: int) -> bool:
     c0 = concrete_index(c0, NMENU)
     if c0 < 0:
         return True
-    with untraced():
+    with untraced(heavy=True):
         s, cat = recipe_state(1)
         n0 = sum(len(v) for v in cat.tables.values()) + len(cat.tables)
         with _PgRoute() as route:
